@@ -1,5 +1,4 @@
 import Eliot.Proofs.SysFrame
-import Eliot.Generated.ActionScope
 /-!
 # C04 — the current action is scoped to its block and always restored on exit
 
@@ -286,16 +285,6 @@ theorem contextless_msg_own_task (w : World) (hc : w.ctx = none) (t : String) (f
     simp [Fields.get?_set_ne, Fields.get?_set_self]
   · simp only [World.currentOrFresh, hc, World.buildLog, World.freshAction, World.clock, World.nextLevel]
     simp [Fields.get?_set_ne, Fields.get?_set_self]
-
-/-- **E6 (regenerated from /repo on every run)**: the source of `Action.__enter__/__exit__/run/context`
-has the shape the model's `withBlock`/`scopedBlock` transliterate: the token is saved at entry, the
-reset uses that token, `run`/`context` reset in a `finally`, `__exit__` resets the context (whether
-before or after `finish` does not matter for C04 — that order is C02's obligation). -/
-theorem skeleton_E6 :
-    Generated.actionEnter = ["set", "return-self"] ∧
-    Generated.actionExit.filter (· != "finish(exception)") = ["reset", "clear"] ∧
-    Generated.actionRun = ["set", "try[return-call]finally[reset]"] ∧
-    Generated.actionContext = ["@contextmanager", "set", "try[yield]finally[reset]"] := by decide
 
 /-! ## Non-vacuity -/
 def exEnv : Env where
